@@ -33,6 +33,10 @@ def _make_provider():
             if isinstance(hw, rbgen.Hw):
                 return Provider.table[hw.vendor + "|" + hw.tag]
             return super().get_rulebook(hw)
+
+        def get_root_modules(self):
+            # test-only logic functions (harness/logicmods/verif.py) become available as %logic=verif.<name>
+            return ("annet.rulebook", "harness.logicmods")
     return Provider
 
 
@@ -69,6 +73,7 @@ def corpus():
 
 def shards(tier, seed):
     out = [dict(kind="gen", seed=seed * 1000 + i, n=120 if tier == "quick" else 15000) for i in range(12)]
+    out += [dict(kind="sens", seed=seed * 1000 + 500 + i, n=150 if tier == "quick" else 15000) for i in range(8)]
     out.append(dict(kind="corpus"))
     n = 40 if tier == "quick" else 4000
     out += [dict(kind="cross", seed=seed * 1000 + i, n=n) for i in range(4)]
@@ -81,6 +86,23 @@ def gen(desc):
         for _ in range(desc["n"]):
             c = rbgen.gen_case(rng)
             c["kind"] = "gen"
+            yield c
+    elif desc["kind"] == "sens":
+        # rulebooks whose rules use logics that look at the UNCHANGED bucket, several rows per (rule, key),
+        # identical pairs included: what makes "strip before or after" and "empty diff => empty patch" observable
+        rng = random.Random(desc["seed"])
+        for _ in range(desc["n"]):
+            c = rbgen.gen_case(rng, one_per_key=False, special=False)
+            lines = []
+            for l in c["ptext"].split("\n"):
+                if l.strip() and "%" not in l and not l.strip().startswith("!") and rng.random() < 0.6:
+                    l = l + "  %logic=verif." + rng.choice(["sensitive", "sensitive", "always"])
+                lines.append(l)
+            c["ptext"] = "\n".join(lines)
+            if rng.random() < 0.15:
+                c["new"] = [list(x) for x in c["old"]]
+            c["kind"] = "gen"
+            c["sens"] = True
             yield c
     elif desc["kind"] == "corpus":
         for name, vendor, old, new in corpus():
@@ -191,7 +213,8 @@ def nontrivial(case, r):
 
 
 def stats(case, r):
-    lab = ["kind=" + ("cross" if case.get("name", "").startswith("cross:") else case["kind"]), "vendor=" + case["vendor"]]
+    lab = ["kind=" + ("cross" if case.get("name", "").startswith("cross:") else "sens" if case.get("sens") else case["kind"]),
+           "vendor=" + case["vendor"]]
     d = r.get("device", {"err": "Unexpected"})
     if "err" in d:
         lab.append("result=" + d["err"])
